@@ -26,13 +26,13 @@ seed('S-c18', 'C18', 'char_range_gen: surrogate handling through a flag `skipped
      'needed the harness to havoc loop-carried variables it does not know (the flag); demo is a #[cfg(test)] module hooked into main.rs (demo_hook.diff), confirmed by the agent and by the native replay of the check',
      confirm='agent-provided demo (crates/char_range_gen/src/seed_demo.rs hooked in by demo_hook.diff): 5 of 12 tests fail with the change, 12 pass without; the check replays its own counterexample against the natively compiled generator')
 seed('S-c02', 'C02', 'range_map.rs remove_ranges case (1): the removed range is advanced in both sub-branches',
-     'r1 # r2 where a range of r2 covers one range of r1 completely and reaches into the next one, e.g. [a-c e-g] # [a-f]', ['C11'], ['C02'],
-     'this is the other half of the pinned C11 defect; C11 reports 2 roles. The quick C02 lexer family had no such operand at the time; the C11 lexer family added afterwards covers class expressions end to end')
+     'r1 # r2 where a range of r2 covers one range of r1 completely and reaches into the next one, e.g. [a-c e-g] # [a-f]', ['C11', 'C02'], [],
+     'this is the other half of the pinned C11 defect; C11 reports 2 roles. The quick C02 lexer family had no such operand at the first run; with the class-difference chains added later C02 reports it too (regression run over all seeds)')
 seed('S-c07', 'C07', 'reset_match() moved from the generated Err arm of backtrack() into Lexer::backtrack before the error is built',
      'InvalidToken reported through backtrack() with no saved match after at least one consumed character: location is the end of the consumed text', ['C07'], [], '')
 seed('S-c01b', 'C01', 'codegen.rs generate_state: the chain of right-context tests that saves the match is built in reverse priority order',
-     'two right-context rules on the same lexeme whose contexts both hold, plus a longer rule keeping the state non-terminal', ['C04'], ['C01'],
-     'C01 first missed it (its family had no right contexts); a right-context priority family was added to C01 and C04 afterwards - see S-c04b for the re-run')
+     'two right-context rules on the same lexeme whose contexts both hold, plus a longer rule keeping the state non-terminal', ['C04', 'C01'], [],
+     'C01 first missed it (its family had no right contexts); a right-context priority family was added to C01 and C04 afterwards; both report it in the regression run over all seeds')
 seed('S-c06b', 'C06', 'codegen.rs: the Err arm of `match self.0.backtrack()` no longer calls reset_match()',
      'an InvalidToken through backtrack() followed by another token: its start (and match_loc/match_ in its action) still points at the failed attempt', ['C06', 'C07'], [],
      'post-state check (match start after the call) plus follow-up call')
@@ -120,3 +120,27 @@ seed('S-c15b', 'C15', 'generated binary_search consults a thread_local "last mat
 seed('S-c13b', 'C13', 'search_table.rs: tables identified by (len, first range, last range)',
      'one lexer with two different >9-range tables that agree in length, first and last range (a class in a loop whose initial state is trimmed by another rule)', ['C13'], [],
      'first run missed it twice: no such pair of tables in the family (added bi_tt0..11), then the lexer part of C13 only ran one character per call, so the loop state was never compared (bound raised to 2 characters, 1 kept for the five biggest tables)')
+# ---- round 6
+seed('S-c03d', 'C03', 'codegen.rs: reset_accepting_state() before accepting transitions is only emitted when the state is marked `backtrack` (the first accepting state of a path is not), so a saved shorter match survives a completed match and later switches',
+     'rules p and p c where p c switches (switch / switch_and_return) to a rule set with a state that rewinds although nothing was accepted on the way there (join of an accepting and a non-accepting path): the action of the Init rule p runs while the other rule set is active', ['C03', 'C09'], [],
+     'C09 reports the surviving saved match at once. C03 first missed it: its stale-match definitions rarely had a switching longer rule, and a wrong item was attributed to the rule-set aspect only for tokens of rule sets other than the start rule set. Added: stale family with forced switch / switch_and_return and a join; isolation check along the implementation\'s own action log (every action must belong to the rule set active when it ran)')
+seed('S-c06d', 'C06', 'lexgen_util backtrack(): the restore of match end / iterator / location is skipped when line and column of the failed attempt equal the accepting position (byte index not compared)',
+     'a rewind over zero-width characters only (U+200B, U+0301, U+FEFF ...)', ['C06'], [], 'location characters include zero-width classes; 8 roles')
+seed('S-c07c', 'C07', 'dfa/backtrack.rs update_backtracks: successors over range transitions get the state\'s own flag instead of successor_backtrack',
+     'a complete shorter rule and a longer rule that leaves the accepting state by a character class into a non-accepting state, then a mismatch: InvalidToken instead of the shorter match', ['C07'], [],
+     'first run missed it (the C07 family had no rewind shapes although the property forbids reporting a lexeme with a valid shorter match as an error). Added the step-out family (step by character / range / several ranges / `_`, out of a one-character or looping accepting state) and rewind-biased definitions to C07, step-out also to C01')
+seed('S-c09d', 'C09', 'generated binary_search rewritten with partition_point and an unchecked table[idx]',
+     'a state with a search table (>9 ranges to one target) and a character above the last range: index out of bounds', ['C09'], [],
+     'first run inconclusive (no summary for slice::partition_point); summary added (same probe sequence as binary_search_by, real predicate closure); the bounds check of table[idx] is the compiler-inserted assert in MIR')
+seed('S-c10d', 'C10', 'lexgen_util Lexer::peek reads the lookahead from the input slice at current_match_end.byte_idx',
+     'a lexer constructed from an iterator (input is "") and an action that calls peek()', ['C10'], [],
+     'first run inconclusive (str::get(RangeFrom), Option::and_then, chars of a string constant had no summaries, string constants kept their quotes); added')
+seed('S-c13c', 'C13', 'range_map.rs insert_ranges: when both ranges start at the same point and the old one is longer, its rest is pushed at once and both iterators advance (unsorted overlapping map; remove_ranges then misses ranges)',
+     'a union of classes on the left of `#` where one range of the left operand of `|` overlaps two or more ranges of the right one, and `#` removes a character of a later overlapped range', ['C13', 'C11'], [],
+     'C11 (inductive step on insert_ranges) reports the malformed map at once. The C13 lexer family had no union under a difference; added bi_union0..4')
+seed('S-c14c', 'C14', 'lexgen_util backtrack(): __done = true when the failed match ended at input.len()',
+     'an InvalidToken raised through backtrack() on the last character of the input, an Init `$` rule, and a lexer constructed from &str (input is "" for iterator lexers)', ['C14'], [],
+     'first run missed it: the constructor states are equal in every field except `input`, and the argument "next() is one body for all constructors" overlooked that this one field is read by the runtime. C14 now also explores one call from every boundary state for each definition constructed from &str and from an iterator; a disagreement with the reference that only one of the two shows is reported (replayed natively through all four constructors)')
+seed('S-c15c', 'C15', 'lexgen_util: process-wide direct-mapped display-width cache in a static array of atomics, slot = c % 64, tag = c >> 8',
+     'two characters of one 256-block that are 64/128/192 apart and have different widths, an eviction between them, and a schedule in which one lexer runs ahead of its clone', [], ['C15'],
+     'NOT DETECTED: the check ends INCONCLUSIVE (exit 2, no verdict), because the executor has no model for static arrays of atomics indexed by a symbolic value and for bit operations on integer-encoded symbolic values; it does not pass. Also the behavioural clone comparison steps clone and original alternately, while this change needs one of them to run ahead. Stated as outside the reach of the present machinery (DESIGN.md section 3, C15)')
